@@ -103,6 +103,14 @@ CLAIMED["C20"] = (
     "bools_to_categorical and pretty_cut (pandas/string code), the min_count branch and datetime converters are outside; exact arithmetic",
     "DESIGN.md 4 C20")
 
+CLAIMED["C16"] = (
+    "in part: (i) the real GroupBy.var/std bodies (one-pass formula over the real sum / sum-of-squares / count kernels) equal the two-pass sample "
+    "variance as a polynomial identity in exact arithmetic for every code sequence and null pattern of the bound and all non-null values (null when "
+    "n <= ddof), ddof in {0,1}, std^2 = var; (ii) the real GroupBy.apply routes, for every code sequence, mask and 1-2 value columns, exactly the "
+    "selected values of each observed group in row order to an uninterpreted user function and its results to that group's position; N<=4 (quick), N<=5 (thorough)",
+    "the floating-point rounding bound of the one-pass formula, NumPy's median/quantile kernels, agg/ratio/density (pandas arithmetic) are NOT decided; "
+    "_apply_gb_reduction is cut to the kernel path for var/std", "DESIGN.md 4 C16")
+
 NOT_APPLICABLE = {
     "C11": "labelling/order/shape are decided entirely by pandas Index/MultiIndex/DataFrame operations (C extension semantics); nothing symbolic to quantify over within reach of the encoder (DESIGN.md 5)",
     "C14": "margins and crosstab are reindex/groupby(level)/concat/unstack on pandas objects; not encodable (DESIGN.md 5)",
